@@ -9,5 +9,14 @@ check="$1"; tier="${2:-quick}"; shift; shift || true
 export VERIF_TIER="$tier"
 mkdir -p bin evidence
 [ -x killat/killat ] || make -C killat >/dev/null
-./tools/build.sh /repo "$VERIF_ROOT/harness" "$VERIF_ROOT/bin/lsmc" || { echo "BUILD FAILED (harness or /repo does not compile with -tags verif)"; exit 2; }
-exec ./bin/lsmc "$check" "$@"
+bin=lsmc
+if [ "$check" = c17 ]; then
+  # scaled lock-page geometry: separate build (patched copy of the ltx module + overlays), see tools/build_c17.sh
+  ./tools/build_c17.sh /repo "$VERIF_ROOT/bin/lsmc-c17" || { echo "BUILD FAILED (c17 variant)"; exit 2; }
+  exec ./bin/lsmc-c17 c17 "$@"
+fi
+case "$check" in
+  c18) export LSMC_TAGS=vfs; bin=lsmc-vfs ;;   # VFS code needs -tags vfs (cgo)
+esac
+./tools/build.sh /repo "$VERIF_ROOT/harness" "$VERIF_ROOT/bin/$bin" || { echo "BUILD FAILED (harness or /repo does not compile with -tags verif)"; exit 2; }
+exec ./bin/$bin "$check" "$@"
